@@ -469,7 +469,13 @@ def rule_dispatch(ck):
         stops = [h for x in ast.walk(wl[0]) if isinstance(x, ast.Try) for h in x.handlers if u(h.type) == 'StopIteration' and any(isinstance(s, ast.Return) for s in h.body)]
         brk = [x for x in ast.walk(wl[0]) if isinstance(x, ast.Break)]
         native = [y for y in ys if u(y.value) == 'catalog']
-        ok = len(nx) == 1 and len(stops) == 1 and native and not brk and _every_path_yields(wl[0].body)
+        swallow = [h for x in ast.walk(wl[0]) if isinstance(x, ast.Try) for h in x.handlers
+                   if u(h.type) != 'StopIteration' and not any(isinstance(s_, ast.Raise) for s_ in ast.walk(h))]
+        ok = len(nx) == 1 and len(stops) == 1 and native and not brk and _every_path_yields(wl[0].body) and not swallow
+        if swallow:
+            o.fail('an exception of the decoder (`except %s`) ends the stream silently: a file with decreasing catalog ids is accepted and a '
+                   'truncated forecast returned instead of the ValueError' % (u(swallow[0].type) if swallow[0].type is not None else ''))
+            return
     (o.ok('while True: catalog = next(result) ... yield') if ok else o.fail('load_stochastic_event_sets no longer forwards every catalog of the file'))
 
 
@@ -483,4 +489,14 @@ def rule_dialect(ck):
     c14.rule_dialect(ck)
 
 
-RULES = [rule_dialect, rule_transitions_only, rule_flush, rule_gaps, rule_columns, rule_dispatch]
+def rule_time_and_order(ck):
+    """event times are decoded by the shared string parser (C15-D2/D3) and the decoded events stay in file order: nothing between
+    the reader and the catalog object sorts or drops rows (shared C14-D7.roworder on the catalog constructor path)"""
+    from . import c14, c15
+    ck.clause('D4 (shared C15-D2/D3 time parsing, C14-D7 row order)')
+    c15.rule_utc(ck)
+    c15.rule_exact(ck, only=('strptime_to_utc_epoch', 'datetime_to_utc_epoch', 'strptime_to_utc_datetime'))
+    c14.rule_row_order(ck)
+
+
+RULES = [rule_dialect, rule_transitions_only, rule_flush, rule_gaps, rule_columns, rule_dispatch, rule_time_and_order]
